@@ -249,6 +249,8 @@ def write_evidence(pid, cfg, tier, seed, agg, wall, violations, fuzz, notes):
         cov["native_fuzz"] = [{k: v for k, v in f.items() if k != "log"} for f in fuzz]
     if notes.get("unhealthy"):
         cov["generator_unhealthy"] = notes["unhealthy"]
+    if notes.get("other_races"):
+        cov["data_races_outside_this_property"] = notes["other_races"]
     ev = {"property_id": pid, "tier": tier, "seed": seed, "level": cfg["level"], "coverage": cov,
           "assumptions": cfg.get("assumptions", []), "wall_s": round(wall, 2), "violations": violations}
     os.makedirs(os.path.join(VERIF, "evidence"), exist_ok=True)
@@ -284,6 +286,15 @@ def crash_replay(pid, unit, logp, seed, shard, kind, work=None, ospid=None):
                "rapid_seed": str(rapid_seed(seed, shard)), "repo_head": repo_head(),
                "how_to_rerun": "VERIF_SEED=%d ./run.py %s" % (seed, pid), "log_tail": tail(logp, 120)}, open(dst, "w"), indent=1)
     return dst
+
+
+def summarize_race(block):
+    fns = re.findall(r"^  (\S+\(\))$", block, re.M)
+    acc = re.findall(r"^(Read|Write|Previous read|Previous write) at", block, re.M)
+    tops = []
+    for m in re.finditer(r"^(?:Read|Write|Previous read|Previous write) at .*\n  (\S+)", block, re.M):
+        tops.append(m.group(1))
+    return " <-> ".join(tops[:2]) if tops else "race"
 
 
 def classify_failure(txt):
@@ -365,6 +376,7 @@ def run_check(pid, cfg, tier, seed, work, a, t0):
             seeds.append(rapid_seed(seed, sh))
     failures = []
     inconclusive = []
+    other_races = []
     # bounded parallelism is not needed: at most ~16 processes
     for pr in procs:
         p = pr["p"]
@@ -383,6 +395,17 @@ def run_check(pid, cfg, tier, seed, work, a, t0):
         if p.returncode != 0:
             txt = open(pr["log"], errors="replace").read()
             kind = classify_failure(txt)
+            flt = pr["unit"].get("race_filter")
+            if kind == "race" and flt:
+                # only data races that touch the code this property is about count; others are
+                # recorded in the evidence as observations
+                blocks = [b for b in txt.split("==================") if "WARNING: DATA RACE" in b]
+                rel = [b for b in blocks if flt in b]
+                other_races.extend(summarize_race(b) for b in blocks if flt not in b)
+                if not rel:
+                    continue
+                txt = "==================".join(rel)
+                open(pr["log"], "w").write(txt)
             if kind in ("timeout", "unknown"):
                 inconclusive.append((pr, kind))
             else:
@@ -427,6 +450,8 @@ def run_check(pid, cfg, tier, seed, work, a, t0):
             inconclusive.append(({"unit": {"name": "fuzz:" + f["target"]}, "log": f["log"]}, "fuzz-rc-%s" % f["rc"]))
 
     notes = {"seeds": [str(s) for s in seeds]}
+    if other_races:
+        notes["other_races"] = sorted(set(other_races))[:10]
     # generator health
     unhealthy = []
     if not a.replay and not vio_paths:
